@@ -42,5 +42,28 @@ def load (s : Snap) : Book :=
 
 def reload (b : Book) : Book := load (save b)
 
+/-! ### Stamp shift
+
+A snapshot in which `k` has been added to the stamp counter and to the stamp of every stored key:
+the snapshot of the state that `k` further queue insertions — by orders that have since left the
+book — would have produced (up to their dead records). `Lemmas/StampShift` proves that loading it
+yields a book that satisfies the invariant, has the same abstraction (queues read in key order) and is
+therefore observationally the original under every continuation. -/
+
+def _root_.Bourse.Entry.shift (k : Nat) (e : Entry) : Entry := { e with key := { e.key with st := e.key.st + k } }
+
+def _root_.Bourse.Snap.shift (k : Nat) (s : Snap) : Snap :=
+  { s with stamp := s.stamp + k, orders := s.orders.map (Entry.shift k) }
+
+def _root_.Bourse.SideS.shift (k : Nat) (s : SideS) : SideS :=
+  { s with orders := s.orders.map (fun e => ((e.1.1, e.1.2 + k), e.2)) }
+
+/-- Every stamp of the live state moved up by `k`. -/
+def shift (k : Nat) (b : Book) : Book :=
+  { b with stamp := b.stamp + k, orders := b.orders.map (Entry.shift k), bid := b.bid.shift k, ask := b.ask.shift k }
+
+/-- The harness's `jump k`: save, add `k` to every stamp of the snapshot, load. -/
+def reloadShift (k : Nat) (b : Book) : Book := load ((save b).shift k)
+
 end Book
 end Bourse
